@@ -19,7 +19,9 @@ ASSUMPTIONS = ['each program text is obtained by running it under plain CPython 
 EXPLANATION = 'explicit enumeration of operation histories on a real Sandbox; reference-model comparison after every op'
 
 DEFS = ("def sil():\n    return 1\ndef pr():\n    print('in pr')\ndef rd():\n    v = input('p>')\n"
-        "    print('got', v)\n    return v\n")
+        "    print('got', v)\n    return v\n"
+        # the student keeps a reference of their own to input(), made when the file was first run
+        "read = input\ndef rdk():\n    v = read('p>')\n    w = read('two?')\n    print('kept', v, w)\n    return v\n")
 PROGS = {
     'silent': "z = 1",
     'a': "print('a')",
@@ -38,7 +40,7 @@ PROGS = {
                   "except ValueError:\n    v = input('two?')\nprint(v)"),
 }
 OPS = [('run', k) for k in PROGS] + [
-    ('call', 'sil'), ('call', 'pr'), ('call', 'rd'), ('eval', '1+1'), ('clear_output',),
+    ('call', 'sil'), ('call', 'pr'), ('call', 'rd'), ('call', 'rdk'), ('eval', '1+1'), ('clear_output',),
     ('set_input', ['i1', 'i2']), ('set_input', 'solo'), ('queue_input', 'q1', 'q2'), ('clear_input',),
     ('set_input_noclear', ['k1']), ('set_input', []), ('set_input_noclear', []), ('queue_input',),
     ('run_inputs', 'read2', []), ('run_inputs', 'read1', ['r1', 'r2']), ('call_inputs', 'rd', ''),
@@ -95,7 +97,10 @@ class Model:
         self.lines = []
         self.inputs = []
         self.ctx = []
-        self.ns = {}
+        self._inp = None
+        # input() of the student's namespace always reaches the queue as it is at the moment of the call -- also
+        # through a reference the student made during an earlier execution
+        self.ns = {'input': lambda prompt="": self._inp(prompt)}
         exec(DEFS, self.ns)
 
     def execute(self, code):
@@ -112,13 +117,12 @@ class Model:
             used.append(v)
             return v
         env = self.ns
-        env['input'] = inp
+        self._inp = inp
         try:
             with contextlib.redirect_stdout(out):
                 exec(compile(code, 'answer.py', 'exec'), env)
         except Exception:
             pass
-        env.pop('input', None)
         text = out.getvalue()
         self.raw += text
         if text:
